@@ -100,7 +100,7 @@ def out_of_range(model):
     return False
 
 
-def same_outcome(impl, model):
+def same_outcome(impl, model, scale=0.0):
     """impl: canonical outcome of the implementation; model: the driver's reply"""
     if 'err' in model:
         if 'err' not in impl:
@@ -115,12 +115,12 @@ def same_outcome(impl, model):
         if 'dim' not in impl or not dim_matches(impl['dim'], model['dim']):
             return False
     if 'val' in model:
-        return 'val' in impl and common.close(impl['val'], common.unjrat(model['val']))
+        return 'val' in impl and common.close(impl['val'], common.unjrat(model['val']), scale)
     if 'inexact' in model:
         return 'val' in impl and impl['val'] != 0 and math.isfinite(impl['val']) and (impl['val'] < 0) == model['inexact']
     if 'arr' in model:
         return 'arr' in impl and len(impl['arr']) == len(model['arr']) and all(
-            common.close(a, common.unjrat(b)) for a, b in zip(impl['arr'], model['arr']))
+            common.close(a, common.unjrat(b), scale) for a, b in zip(impl['arr'], model['arr']))
     if 'bool' in model:
         return impl.get('bool') is model['bool']
     if 'bools' in model:
